@@ -15,6 +15,8 @@ structure St where
   /-- lint session: what `fetch_uod_info` answers / what `create_analysis_input` has cached (tags, commands) -/
   sessDefn : Option (List TagDef × List CmdDef) := none
   sessCached : Option (List TagDef × List CmdDef) := none
+  /-- which code the session model follows: with / without fixes/C19-uodinfo-clears-analysis-cache.diff -/
+  sessRepaired : Bool := true
 
 def St.env (s : St) : Env :=
   ⟨s.tags, s.cmds, fun a b => s.sims.contains (a, b), OPM.Gen.unitSys⟩
@@ -56,7 +58,7 @@ def showItems (l : List Item) : String :=
   `node <line> <kind> <hasCond> <tagName|N> <op> <rhs> <tagValue|N> <tagUnit|N> <instrName> <lineText>
         <arguments> <hasArgument> <argsValid>`                                           → `ok`
   `analyze` / `analyzeold`   → items (`C|S|M:id:line:E:fix` …) | `none` | `err:…`
-  `sess-register` / `sess-uodinfo` / `sess-lint` : a lint session over time (model `sessStep`)
+  `sess-mode` (asis|repaired) / `sess-register` / `sess-register-keep` / `sess-uodinfo` / `sess-lint` : a lint session over time (model `sessStep`)
   `lint` / `lintold`         → `generic` | diagnostics (`id:line:E:fix` …, no analyzer letter) | `none` -/
 def step (s : St) (line : String) : St × String :=
   match fields line with
@@ -108,6 +110,7 @@ def step (s : St) (line : String) : St × String :=
         | _, _, _, _, _, _ => (s, "bad-op")
       | _, _, _, _, _ => (s, "bad-op")
     | _, _, _, _, _, _, _, _ => (s, "bad-op")
+  | ["sess-mode", m] => ({ s with sessRepaired := m != "asis" }, "ok")
   | ["sess-register"] =>
     ({ s with sessDefn := none, sessCached := none, tags := [], cmds := [], nodes := [], xnodes := [] }, "ok")
   | ["sess-register-keep"] =>
@@ -115,13 +118,15 @@ def step (s : St) (line : String) : St × String :=
     ({ s with sessCached := none, tags := [], cmds := [], nodes := [], xnodes := [] }, "ok")
   | ["sess-uodinfo"] =>
     -- the tags / commands transmitted since the last session op are the definition the aggregator now holds
-    ({ s with sessDefn := some (s.tags, s.cmds), tags := [], cmds := [], nodes := [], xnodes := [] }, "ok")
+    -- (`sessStep`: the repaired handler clears the cache too)
+    ({ s with sessDefn := some (s.tags, s.cmds), sessCached := if s.sessRepaired then none else s.sessCached,
+              tags := [], cmds := [], nodes := [], xnodes := [] }, "ok")
   | ["sess-lint"] =>
     -- the nodes transmitted since the last session op are the document; `similar` facts accumulate over the case
     let mkEnv : List TagDef × List CmdDef → Env := fun tc =>
       ⟨tc.1, tc.2, fun a b => s.sims.contains (a, b), OPM.Gen.unitSys⟩
     let sess : Sess := ⟨s.sessDefn.map mkEnv, s.sessCached.map mkEnv⟩
-    let (_, out) := sessStep sess (.lint s.xnodes)
+    let (_, out) := sessStep s.sessRepaired sess (.lint s.xnodes)
     -- the new cache content, as data (same case split as `sessStep`)
     let cached' := match s.sessCached with
       | some c => some c
